@@ -348,7 +348,7 @@ var (
 )
 
 type engProfile struct {
-	flow, disr, acct, ctl, chains, cache, apiOrder float64
+	flow, disr, acct, ctl, chains, cache, apiOrder, modeSwitch float64
 }
 
 func genLink(r *gen.R, p engProfile, first, prevDet bool, ruleIDs []int) (eLink, bool) {
@@ -398,7 +398,7 @@ func genLink(r *gen.R, p engProfile, first, prevDet bool, ruleIDs []int) (eLink,
 	}
 	l.Op = op
 	ntf := 0
-	if r.Chance(0.45+p.cache) {
+	if r.Chance(0.45 + p.cache) {
 		ntf = 1 + r.Intn(3)
 	}
 	for i := 0; i < ntf; i++ {
@@ -416,6 +416,9 @@ func genLink(r *gen.R, p engProfile, first, prevDet bool, ruleIDs []int) (eLink,
 }
 
 func genNAct(r *gen.R, p engProfile, det bool, ruleIDs []int) eNAct {
+	if r.Chance(p.modeSwitch) {
+		return eNAct{N: "ctlRuleEngine", M: r.Pick("On", "On", "DetectionOnly", "Off")}
+	}
 	if r.Chance(0.15 + p.ctl) {
 		id := ruleIDs[r.Intn(len(ruleIDs))]
 		switch r.Intn(6) {
@@ -468,7 +471,7 @@ func genNAct(r *gen.R, p engProfile, det bool, ruleIDs []int) eNAct {
 func genEngCase(r *gen.R, p engProfile) *eCase {
 	c := &eCase{Mode: "On", Get: [][2]string{}, Post: [][2]string{}, Hdr: [][2]string{}}
 	switch {
-	case r.Chance(0.2):
+	case r.Chance(0.2 + p.modeSwitch):
 		c.Mode = "DetectionOnly"
 	case r.Chance(0.06):
 		c.Mode = "Off"
@@ -556,13 +559,13 @@ func genEngCase(r *gen.R, p engProfile) *eCase {
 }
 
 var engProfiles = map[string]engProfile{
-	"":       {},
-	"flow":   {flow: 0.3, chains: 0.1, disr: 0.1},
-	"api":    {disr: 0.35, apiOrder: 0.5, ctl: 0.1},
-	"acct":   {acct: 0.4, chains: 0.2},
-	"ctl":    {ctl: 0.35},
-	"cache":  {cache: 0.5, chains: 0.2},
-	"match":  {chains: 0.3},
+	"":      {},
+	"flow":  {flow: 0.3, chains: 0.1, disr: 0.1},
+	"api":   {disr: 0.35, apiOrder: 0.35, ctl: 0.1, modeSwitch: 0.2},
+	"acct":  {acct: 0.4, chains: 0.2},
+	"ctl":   {ctl: 0.35},
+	"cache": {cache: 0.5, chains: 0.2},
+	"match": {chains: 0.3},
 }
 
 func init() {
